@@ -18,6 +18,10 @@ import (
 	"golang.org/x/net/proxy"
 )
 
+// ErrPeerGone is returned by a Write that would block after the server side
+// has closed or failed.
+var ErrPeerGone = errors.New("fakenet: broken pipe (peer has gone away)")
+
 // ErrClosed is returned by operations on a closed Conn.
 var ErrClosed = errors.New("fakenet: use of closed connection")
 
@@ -48,6 +52,7 @@ type Conn struct {
 	failWrite map[int]error // n-th Write call (1-based, counted from creation) fails
 	nreads    int
 	notify    chan struct{}
+	peerGone  bool
 
 	Addr string // address that was dialled
 }
@@ -105,6 +110,11 @@ func (c *Conn) Write(p []byte) (int, error) {
 		}
 		if c.budget < 0 || c.budget >= len(p) {
 			break
+		}
+		if c.peerGone {
+			// like TCP: a peer that has gone away does not leave writes
+			// blocked for ever, they fail
+			return 0, ErrPeerGone
 		}
 		c.cond.Wait()
 	}
@@ -187,6 +197,7 @@ func (c *Conn) EOF() { c.Fail(io.EOF) }
 func (c *Conn) Fail(err error) {
 	c.mu.Lock()
 	c.inq = append(c.inq, chunk{err: err})
+	c.peerGone = true
 	c.cond.Broadcast()
 	c.mu.Unlock()
 }
